@@ -4,27 +4,28 @@ import json, os, subprocess, sys, time, glob
 VERIF = os.path.dirname(os.path.dirname(os.path.abspath(__file__)))
 ids = sys.argv[1:] or sorted(os.path.basename(d) for d in glob.glob(os.path.join(VERIF, 'seeded', 'C*')))
 tier = os.environ.get('EVAL_TIER', 'quick')
+REPO = os.environ.get('EVAL_REPO', '/repo')      # a scratch clone lets two evaluations run side by side
 for i in ids:
     d = os.path.join(VERIF, 'seeded', i)
     prop = i.split('-')[0]
     props = [prop] + [p for p in os.environ.get('EVAL_ALSO', '').split(',') if p]
-    st = subprocess.run(['git', '-C', '/repo', 'status', '--porcelain', '--untracked-files=no'], stdout=subprocess.PIPE, text=True).stdout.strip()
-    assert not st, '/repo is dirty: ' + st
-    r = subprocess.run(['git', '-C', '/repo', 'apply', os.path.join(d, 'patch.diff')])
+    st = subprocess.run(['git', '-C', REPO, 'status', '--porcelain', '--untracked-files=no'], stdout=subprocess.PIPE, text=True).stdout.strip()
+    assert not st, REPO + ' is dirty: ' + st
+    r = subprocess.run(['git', '-C', REPO, 'apply', os.path.join(d, 'patch.diff')])
     assert r.returncode == 0, 'patch does not apply: ' + i
     res = {}
     try:
         for p in props:
             t0 = time.time()
             pr = subprocess.run([os.path.join(VERIF, 'check'), p, '--tier', tier], cwd=VERIF, stdout=subprocess.PIPE, stderr=subprocess.STDOUT, text=True,
-                                env=dict(os.environ, VERIF_CACHE=os.environ.get('VERIF_CACHE', '/tmp/verif-cache')))
+                                env=dict(os.environ, VERIF_REPO=REPO, VERIF_CACHE=os.environ.get('VERIF_CACHE', '/tmp/verif-cache')))
             lines = pr.stdout.splitlines()
             viol = [l for l in lines if l.startswith('VIOLATION')]
             units = [l.strip() for l in lines if l.strip().startswith('unit:')]
             res[p] = {'exit': pr.returncode, 'violation_lines': viol[:5], 'units': units[:8], 'summary': lines[-1] if lines else '', 'wall_s': round(time.time() - t0, 1),
                       'inconclusive': [l[:300] for l in lines if l.startswith('INCONCLUSIVE')][:4]}
     finally:
-        subprocess.run(['git', '-C', '/repo', 'checkout', '--', '.'])
+        subprocess.run(['git', '-C', REPO, 'checkout', '--', '.'])
     out = {'seed': i, 'tier': tier, 'results': res, 'detected': any(v['exit'] == 1 and v['violation_lines'] for v in res.values())}
     json.dump(out, open(os.path.join(d, 'result-%s.json' % tier), 'w'), indent=1)
     print(i, 'DETECTED' if out['detected'] else 'MISSED', {p: (v['exit'], v['wall_s']) for p, v in res.items()}, flush=True)
